@@ -140,7 +140,9 @@ EVENT_REQ = [SOK, TIMED]
 EVENT_MOD = ['self.failures', 'self.errors', 'self.unexpectedSuccesses', 'self.shouldStop', 'G.stdout', 'G.stderr',
              'G.cap_out', 'G.cap_err', 'G.bad']
 REPORT_SITE = ["stdout == G.cap_out and stderr == G.cap_err"]      # C13: the captured text goes to this test's report
-PM_RAISES = {'EndRun': ["self.options.post_mortem"]}
+PM_RAISES = {'EndRun': ["self.options.post_mortem", ORIG, "G.bad == old(G.bad) + 1", "G.tsu == old(G.tsu)",
+                        STARTED + " == old(" + STARTED + ")", TIMED, "G.hookexc == old(G.hookexc)",
+                        "hasattr(self, '_threads') == old(hasattr(self, '_threads'))"] + CI + FRAME_STREAMS}
 
 ADD_ERROR = method({
     'property': ['C04', 'C12', 'C13', 'C16'], 'params': {'test': 'Test', 'exc_info': 'Any'},
@@ -247,7 +249,8 @@ INIT = {
     'self_fields': SELF, 'dynamic': DYNAMIC, 'ghost': GHOST,
     'locals': {'layers': 'List[Layer]'},
     'requires': ["WF()", "not hasattr(self, '_test_state')"],
-    'modifies': ['self.options', 'self.layers', 'self.count', 'self.testsRun', 'self.shouldStop', 'self.failures',
+    'assigns': {'self.options': 'options'},
+    'modifies': [ 'self.layers', 'self.count', 'self.testsRun', 'self.shouldStop', 'self.failures',
                  'self.errors', 'self.skipped', 'self.unexpectedSuccesses', 'self.expectedFailures',
                  'self._stdout_buffer', 'self._stderr_buffer', 'self._original_stdout', 'self._original_stderr'],
     'ensures': CI + [
@@ -258,7 +261,7 @@ INIT = {
         "self.testsRun == 0 and not self.shouldStop and len(self.failures) == 0 and len(self.errors) == 0"
         " and len(self.skipped) == 0 and len(self.unexpectedSuccesses) == 0",
         "not hasattr(self, '_test_state')",
-        "self.count >= 0",
+        "self.count >= 0", "self.options == options",
     ],
     'raises': {},
     'loops': {'#loop1': ["count >= 0"]},
@@ -367,6 +370,7 @@ MID = [R(STARTED), R(TIMED), "hasattr(result, '_threads')", "G.tsu", "not G.hook
        "result.testsRun == old(result.testsRun) + count(test)",
        "result._original_stdout == old(result._original_stdout) and result._original_stderr == old(result._original_stderr)"]
 CASE_RUN = {
+    'merge': True,
     'property': ['C04', 'C05', 'C12', 'C13', 'C16', 'C18'],
     'params': {'result': 'Rec[runner.TestResult]', 'test': 'Test'},
     'ghost': GHOST,
@@ -395,6 +399,39 @@ CASE_RUN = {
     'loops': {'#loop1': MID + [R(c) for c in CI], '#loop2': MID + [R(c) for c in CI]},
     'rules': {'nondet': 'fresh:bool', 'any_str': 'fresh:Str', 'any_exc': 'fresh:Any', 'any_test': 'fresh:Test'},
 }
+
+
+def per_test(label):
+    """invariant of the two per-test loops of run_tests (between two tests)."""
+    return ([R(c) for c in CI] + IDLE + [
+        "not G.hookexc", "result.options == options",
+        "G.bad - pre(G.bad, '%s') == len(result.failures) + len(result.errors) + len(result.unexpectedSuccesses)" % label,
+        "G.bad >= pre(G.bad, '%s')" % label,
+        "implies(options.stop_on_error and not options.post_mortem and G.bad > old(G.bad), result.shouldStop)",
+        "result.testsRun >= 0",
+        "G.stdout == old(G.stdout) and G.stderr == old(G.stderr)",
+        "result._original_stdout == old(G.stdout) and result._original_stderr == old(G.stderr)",
+    ])
+
+
+def debug_rule(E, st, node, args, kws, k):
+    out = []
+    for exc in ('KeyboardInterrupt', 'SkipTest', 'OtherException', 'OtherBase'):
+        s2 = st.copy()
+        s2.path.append('test.debug!%s' % exc)
+        out.append((s2, 'raise', VExc(exc)))
+    return out + k(st, NONE)
+debug_rule.__name__ = 'test.debug(): returns or raises anything; no result-method calls'
+
+
+def call_protocol(E, st, node, args, kws, k):
+    return E.call_contract('unittest_protocol.case_run', None, [args[0], st.lookup('test')], {}, st, node, k)
+call_protocol.__name__ = 'test(result) = the unittest call protocol (contract of unittest_protocol.case_run)'
+call_protocol.modifies = [m for m in CASE_RUN['modifies']]
+
+
+def _suite_item(E, st, s, i):
+    return VObj('Test', z3.Select(suite_arr(s.z), i.z))
 
 
 # ------------------------------------------------------------------ rule handlers (assumed behaviour of dependencies)
@@ -610,6 +647,14 @@ def register(E):
     E.record_dynamic['runner.TestResult'] = DYNAMIC
     E.add_module('unittest_protocol', PROTOCOL_SRC)
     E.add_contract('unittest_protocol.case_run', CASE_RUN)
+    rt = E.contracts['runner.run_tests']
+    rt.trusted = False
+    rt.loops['#loop2'] = per_test('#loop2')
+    rt.loops['#loop3'] = per_test('#loop3')
+    rt.rules.update({'test': call_protocol, 'test.debug': debug_rule, 'sys.gettotalrefcount': 'fresh:int',
+                     'TrackRefs': 'fresh:Any', 'track.update': 'NOEFFECT', 'store:Any.delta': 'NOEFFECT'})
+    rt.expr_rules.update({'sys.exc_info()[:2] + (sys.exc_info()[2].tb_next,)': 'fresh:Any', 'str(e)': 'fresh:Str'})
+    E.specfuncs['suite_item'] = _suite_item
     E.add_contract(R + '__init__', INIT)
     E.add_contract(R + '_makeBufferedStdStream', MAKE_STREAM)
     E.add_contract(R + '_setUpStdStreams', SETUP_STREAMS)
